@@ -74,6 +74,7 @@ def run_c02(pid):
     jobs += corpus.large_inputs(t, rnd, 260 if t == "quick" else 2500, big=2 if t == "quick" else 12)
     jobs += corpus.table_block_sizes(t, rnd, limit=1200 if t == "quick" else 9300)
     jobs += corpus.silence_histories(t, rnd)
+    jobs += corpus.rail_alternations(t, rnd)
     corpus.fix_declared(jobs, rnd)
     parts = split_by_cost(jobs, 14)
 
@@ -238,6 +239,7 @@ CHECK_DEADLOCK FALSE
     jobs += corpus.large_inputs(t, rnd, 700 if t == "quick" else 6000, max_samples=6000, big=6 if t == "quick" else 40)
     jobs += corpus.table_block_sizes(t, rnd)
     jobs += corpus.silence_histories(t, rnd)
+    jobs += corpus.rail_alternations(t, rnd)
     corpus.fix_declared(jobs, rnd)
     # front-end pairs: the same content through all four writers for a slice of the corpus
     extra = []
